@@ -110,6 +110,13 @@ def body_L1(ctx, payload):
         ctx.check(len(seen) == 1 and seen[0][0] is message, "the codec was called %d times / with another object", len(seen))
         ctx.check(seen[0][1] is (my_default if custom else json_default), "json_default handed to the codec is %r", seen[0][1])
         ctx.check(json.dumps(message, sort_keys=True) == snapshot, "the message was modified")
+        # the same dict object offered again after the caller changed it: a new line, from a new codec call
+        message["k"].append(3)
+        message["extra"] = 1
+        del f.events[:]
+        dest(message)
+        ctx.check(len(seen) == 2 and seen[1][0] is message, "second offer of the (changed) dict: codec called %d times in total", len(seen))
+        ctx.check([e[0] for e in f.events] == ["write", "flush"], "second offer produced the file events %r", [e[0] for e in f.events])
     finally:
         _output._dumps_bytes, ejson._dumps_bytes = saved
     ctx.nontrivial((text, custom, clen(payload)))
@@ -271,6 +278,13 @@ def body_E1(ctx):
     db(message)
     dt(message)
     raw = b.getvalue()
+    if ctx.shard.get("reoffer", 1):
+        # offer the very same dict object again after changing it in place
+        message["value2"] = "changed"
+        db(message)
+        again = b.getvalue()[len(raw):]
+        ctx.check(again.endswith(b"\n") and json.loads(again.decode("utf-8")).get("value2") == "changed", "re-offering the changed dict wrote %r", again[:120])
+        del message["value2"]
     ctx.check(raw.endswith(b"\n") and raw.count(b"\n") == 1, "binary file content %r is not exactly one newline-terminated line (%s)", raw[:120], name)
     try:
         line = raw[:-1].decode("utf-8")
